@@ -26,9 +26,14 @@ def run(d):
     k = d["k"]
     b = lambda n: b"" if d[n] == "-" else bytes.fromhex(d[n])
     if k == "sc":
-        s = sc_obj(d["v"])
         t = lambda x: "true" if x else "false"
-        return f"ok {s.security_suite} {t(s.authenticated)} {t(s.encrypted)} {t(s.broadcast_key)} {t(s.compressed)} {s.to_bytes()[0]}"
+        show = lambda s: f"ok {s.security_suite} {t(s.authenticated)} {t(s.encrypted)} {t(s.broadcast_key)} {t(s.compressed)} {s.to_bytes()[0]}"
+        s = sc_obj(d["v"])
+        first = show(s)
+        # what a caller does with a parsed field (clear a flag, set another suite) does not change what the byte parses to next time
+        fw.scribble(s)
+        again = show(sc_obj(d["v"]))
+        return first if again == first else first + " !second-parse-differs:" + again
     if k == "block":
         from cryptography.hazmat.primitives.ciphers import Cipher, algorithms, modes
         e = Cipher(algorithms.AES(b("key")), modes.ECB()).encryptor()
@@ -65,6 +70,34 @@ def run(d):
         except Exception as e:  # noqa
             return "refused | err " + fw.classify_exception(e, ERR_MAP)
         return "data | ok " + hx(r)
+    if d.get("ba"):
+        # the system title handed over as a bytearray (what the library's own decoders return): same answer, the caller's buffer
+        # is not touched, and a second call with the same object gives the same answer
+        # (the system title only: it is what the library's A-XDR decoder hands out as a bytearray; the `cryptography` package
+        #  itself insists on bytes for keys and tags)
+        args = {n: (bytearray(b(n)) if n == "title" else b(n)) for n in ("title", "key", "x", "ak")}
+        keep = {n: bytes(v) for n, v in args.items()}
+        outs = []
+        for _ in range(2):
+            try:
+                s = sc_obj(d["sc"])
+                if k == "enc":
+                    r = security.encrypt(s, args["title"], d["ic"], args["key"], args["x"], args["ak"])
+                elif k == "dec":
+                    r = security.decrypt(s, args["title"], d["ic"], args["key"], args["x"], args["ak"])
+                else:
+                    r = security.gmac(s, args["title"], d["ic"], args["key"], args["ak"], args["x"])
+                outs.append(f"ok {hx(r)} | ok {hx(r)}")
+            except (fw._Timeout, fw.MachineryError):
+                raise
+            except Exception as e:  # noqa
+                outs.append("refused | err " + fw.classify_exception(e, ERR_MAP))
+        changed = [n for n, v in args.items() if bytes(v) != keep[n]]
+        if changed:
+            return outs[0] + " !PROP callers-buffer-modified:" + ",".join(changed)
+        if outs[0] != outs[1]:
+            return outs[0] + " !PROP second-call-differs:" + outs[1]
+        return outs[0]
     try:
         s = sc_obj(d["sc"])
         if k == "enc":
@@ -78,7 +111,7 @@ def run(d):
                 from dlms_cosem.protocol import xdlms
                 r2 = xdlms.GeneralGlobalCipher(b("title"), s, d["ic"], b("x")).to_plain_apdu(b("key"), b("ak"))
                 if bytes(r2) != bytes(r):
-                    return f"ok {hx(r)} | ok {hx(r)} !apdu-object-gives:{hx(r2)}"
+                    return f"ok {hx(r)} | ok {hx(r)} !PROP apdu-object-gives:{hx(r2)}"
         elif k == "gmac":
             r = security.gmac(s, b("title"), d["ic"], b("key"), b("ak"), b("x"))
         elif k == "wrap":
@@ -195,6 +228,25 @@ class C05(fw.Prop):
             p = params()
             yield mk(dict(k="enc", x="0102", tag="title-length", **{**p, "title": hx(rb(n))}))
             yield mk(dict(k="dec", x=hx(rb(30)), tag="title-length", **{**p, "title": hx(rb(n))}))
+        # titles spelled as text (16 hex digits, with blanks, with a length byte in front): not 8 bytes, refused - also when the
+        # text was made under the 8 bytes they spell
+        for _ in range(6 if deep else 3):
+            p = params()
+            real = bytes.fromhex(p["title"])
+            ct = ref_gcm(bytes.fromhex(p["key"]), real + p["ic"].to_bytes(4, "big"), bytes([p["sc"]]) + bytes.fromhex(p["ak"]), rb(11))
+            for spelled in (real.hex().upper().encode(), real.hex().encode(), real + b" ", b" " + real, real + b"\x00", b"\x08" + real, real + real):
+                yield mk(dict(k="enc", x="c001c100", tag="title-spelled", **{**p, "title": hx(spelled)}))
+                yield mk(dict(k="gmac", x=hx(rb(16)), tag="title-spelled", **{**params(scb=0x10), "title": hx(spelled)}))
+                yield mk(dict(k="tamper", x=hx(ct), tag="title-spelled", **{**p, "title": hx(spelled)}))
+        # the system title handed over as a bytearray
+        for n in (0, 1, 16, 33, 100):
+            p = params()
+            pt = rb(n)
+            s = sc_obj(p["sc"])
+            ct = ref_gcm(bytes.fromhex(p["key"]), bytes.fromhex(p["title"]) + p["ic"].to_bytes(4, "big"), s.to_bytes() + bytes.fromhex(p["ak"]), pt)
+            yield mk(dict(k="enc", x=hx(pt), tag="bytearrays", ba=True, **p))
+            yield mk(dict(k="dec", x=hx(ct), tag="bytearrays", ba=True, **p))
+            yield mk(dict(k="gmac", x=hx(rb(n + 8)), tag="bytearrays", ba=True, **params(scb=0x10 + rng.choice([0, 1]))))
         # texts made outside the library under a nonce built from a title that is not 8 bytes: refused, never opened
         for n in list(range(0, 8)) + list(range(9, 17)):
             p = params()
